@@ -109,6 +109,23 @@ pub fn sweep(out: &mut dyn Write, seed: u64, o: &Opts) {
             }
         }
     }
+    // 0c. a Base256 run at the length-field boundary followed by digit tails of every length, so that
+    // the total lands exactly on (and just beyond) symbol capacities
+    for l in [249usize, 250, 251] {
+        for k in 0..64 {
+            for first_other in [false, true] {
+                let mut d: Vec<u8> = (0..l).map(|_| 0xC8u8).collect();
+                if first_other {
+                    d[l - 1] = b'!';
+                }
+                d.extend(std::iter::repeat(b'7').take(2 * k));
+                for mask in [default_mask(), (1u64 << 48) - 1] {
+                    let c = Case { data: d.clone(), modes: 63, mask, macros: true, fnc1: false, eci: None };
+                    emit_case(out, o, &c, &mut hist);
+                }
+            }
+        }
+    }
     // 1. exhaustive short strings over the class alphabet x sampled configurations
     if o.short_len > 0 {
         let strs = short_strings(o.short_len);
